@@ -73,6 +73,7 @@ type v34Exchange struct {
 	ReqDeclared          int64 // Request.ContentLength
 	ReqChunkMax          int
 	ReqEOFWithData       bool // last chunk is returned together with io.EOF
+	ReqEOFDelayMs        int  // the body reader pauses that long (virtual) before it reports its end
 	ReqTrailers          []v34Field
 	ReqTrailerUndeclared bool // the body also adds a trailer that was never declared
 
@@ -121,6 +122,10 @@ type v34Config struct {
 	// acknowledgements get through). Afterwards the network is perfect.
 	KeyUpdateLossMs int
 	KeyUpdateAfter  int64
+	// ResetAckLossMs > 0 selects another scripted loss pattern: for that many virtual ms after
+	// the client sent its first RESET_STREAM frame every server datagram is lost (so the
+	// acknowledgement of the reset is lost and the client retransmits RESET_STREAM).
+	ResetAckLossMs int
 }
 
 func v34Pattern(lane uint32, off int64) byte {
@@ -523,12 +528,27 @@ type v34Run struct {
 	hwg        sync.WaitGroup
 	srvDone    []chan struct{} // closed when the handler of exchange i returns (made inside the bubble)
 	vmu        sync.Mutex
+	nviol      int
+	connDead   bool
+	collateral int
 	unknownReq atomic.Int32
+}
+
+// errViol reports a failure (error result) of one exchange. When the QUIC connection was
+// closed with an error during the run, every exchange in flight fails as a consequence; that
+// is reported once, under the connection's own key, not once per victim.
+func (run *v34Run) errViol(key, format string, a ...any) {
+	if run.connDead {
+		run.collateral++
+		return
+	}
+	run.viol(key, format, a...)
 }
 
 func (run *v34Run) viol(key, format string, a ...any) {
 	run.vmu.Lock()
 	defer run.vmu.Unlock()
+	run.nviol++
 	run.c.Violation(key, format, a...)
 }
 
@@ -589,6 +609,9 @@ func (b *v34ReqBody) Read(p []byte) (int, error) {
 	}
 	remain := b.ex.ReqBody - b.off
 	if remain == 0 {
+		if b.ex.ReqEOFDelayMs > 0 {
+			time.Sleep(time.Duration(b.ex.ReqEOFDelayMs) * time.Millisecond)
+		}
 		b.finish()
 		return 0, io.EOF
 	}
@@ -846,7 +869,12 @@ type v34Tap struct {
 	lines []string      // debug only
 	// OnSent is called (under mu, on the sending connection's loop goroutine, before the
 	// datagram is written to the network) for every 1-RTT packet an endpoint sends.
-	OnSent func(side int, pnum int64, ackEliciting bool)
+	OnSent func(side int, pnum int64, ackEliciting bool, frames []string)
+	// First CONNECTION_CLOSE frame with an error code that either endpoint sent, and whether
+	// a RESET_STREAM frame had been sent before it.
+	CloseFrame      string
+	CloseAfterReset bool
+	resetStreamSeen bool
 }
 
 type v34TapSide struct {
@@ -869,6 +897,7 @@ func (h *v34TapHandler) Handle(_ context.Context, rec slog.Record) error {
 	var ptype string
 	var pnum, flags int64 = -1, 0
 	eliciting := false
+	var frames []string
 	rec.Attrs(func(a slog.Attr) bool {
 		switch a.Key {
 		case "header":
@@ -890,6 +919,7 @@ func (h *v34TapHandler) Handle(_ context.Context, rec slog.Record) error {
 				// quic's debug frames print as "NAME field=..."; ACK frames (no String
 				// method) print as a struct literal
 				s := fmt.Sprint(v.Any())
+				frames = append(frames, s)
 				if s != "" && s[0] >= 'A' && s[0] <= 'Z' && !strings.HasPrefix(s, "PADDING") && !strings.HasPrefix(s, "ACK") && !strings.HasPrefix(s, "CONNECTION_CLOSE") {
 					eliciting = true
 				}
@@ -903,10 +933,18 @@ func (h *v34TapHandler) Handle(_ context.Context, rec slog.Record) error {
 	switch rec.Message {
 	case "transport:packet_sent":
 		sd.Sent++
+		for _, f := range frames {
+			if strings.HasPrefix(f, "RESET_STREAM") {
+				t.resetStreamSeen = true
+			}
+			if strings.HasPrefix(f, "CONNECTION_CLOSE") && !strings.HasPrefix(f, "CONNECTION_CLOSE Code=NO_ERROR") && t.CloseFrame == "" {
+				t.CloseFrame, t.CloseAfterReset = "CS"[h.side:h.side+1]+" sent "+f, t.resetStreamSeen
+			}
+		}
 		if ptype == "1RTT" {
 			sd.MaxSent = max(sd.MaxSent, pnum)
 			if t.OnSent != nil {
-				t.OnSent(h.side, pnum, eliciting)
+				t.OnSent(h.side, pnum, eliciting, frames)
 			}
 		}
 	case "transport:packet_received":
@@ -1020,7 +1058,7 @@ func (run *v34Run) execute(t *testing.T) *v34RunStats {
 		var pendEliciting, winActive, winOver atomic.Bool
 		var winStart, lastElicitingPassed, srvMax atomic.Int64 // virtual ms since start / packet number
 		nowMs := func() int64 { return time.Since(start).Milliseconds() }
-		tap.OnSent = func(side int, pnum int64, eliciting bool) {
+		tap.OnSent = func(side int, pnum int64, eliciting bool, _ []string) {
 			if side != 0 {
 				srvMax.Store(max(srvMax.Load(), pnum))
 				return
@@ -1053,6 +1091,25 @@ func (run *v34Run) execute(t *testing.T) *v34RunStats {
 				lastElicitingPassed.Store(now)
 			}
 			return true
+		}
+	}
+	if cfg.ResetAckLossMs > 0 {
+		var armed atomic.Bool
+		var lossUntil atomic.Int64
+		nowMs := func() int64 { return time.Since(start).Milliseconds() }
+		tap.OnSent = func(side int, pnum int64, eliciting bool, frames []string) {
+			if side != 0 || armed.Load() {
+				return
+			}
+			for _, f := range frames {
+				if strings.HasPrefix(f, "RESET_STREAM") {
+					lossUntil.Store(nowMs() + int64(cfg.ResetAckLossMs))
+					armed.Store(true)
+				}
+			}
+		}
+		nw.Filter = func(dir int, b []byte) bool {
+			return !(dir == vhnS2C && armed.Load() && nowMs() < lossUntil.Load())
 		}
 	}
 	hctx, hcancel := context.WithTimeout(ctx, 200*time.Second)
@@ -1095,7 +1152,7 @@ func (run *v34Run) execute(t *testing.T) *v34RunStats {
 		synctest.Wait()
 	}
 	st.VirtualMs = time.Since(start).Milliseconds()
-	if done && v34Debug && cfg.KeyUpdateLossMs > 0 {
+	if done && v34Debug && (cfg.KeyUpdateLossMs > 0 || cfg.ResetAckLossMs > 0) {
 		tap.mu.Lock()
 		os.WriteFile(fmt.Sprintf("/tmp/C34/done-%s-%d.log", run.c.Stream, run.c.Index), []byte(strings.Join(tap.lines, "\n")), 0o644)
 		tap.mu.Unlock()
@@ -1128,9 +1185,18 @@ func (run *v34Run) execute(t *testing.T) *v34RunStats {
 				key = "exchange-stuck-" + name + "-discards-every-packet-after-key-update"
 			}
 		}
+		closed := tap.CloseFrame
 		tap.mu.Unlock()
-		run.viol(key, "%s; %d exchanges incomplete %d virtual ms after start (network clean for the last %d s): %s; datagrams sent %v dropped %v",
-			tapState, pending.Load(), st.VirtualMs, cfg.CleanBoundS, strings.Join(stuck, " | "), nw.Sent, nw.Dropped)
+		if closed != "" {
+			// The peer closed the connection with an error and its CONNECTION_CLOSE was lost;
+			// with the idle timeout disabled the survivor waits forever. Reported by
+			// evaluate under the connection's key.
+			key = ""
+		}
+		if key != "" {
+			run.viol(key, "%s; %d exchanges incomplete %d virtual ms after start (network clean for the last %d s): %s; datagrams sent %v dropped %v",
+				tapState, pending.Load(), st.VirtualMs, cfg.CleanBoundS, strings.Join(stuck, " | "), nw.Sent, nw.Dropped)
+		}
 	}
 	teardown(cc)
 	wg.Wait()
@@ -1208,12 +1274,30 @@ func (run *v34Run) checkBody(side string, id int, obs *v34BodyObs, total int64, 
 	case obs.Err == io.EOF && obs.N < total:
 		run.viol(side+"-body-truncated-silently", "exchange %d (%s): reader got io.EOF after %d of %d bytes", id, desc, obs.N, total)
 	case obs.Err != io.EOF:
-		run.viol(side+"-body-read-error", "exchange %d (%s): reading the %s body failed after %d of %d bytes: %v", id, desc, side, obs.N, total, obs.Err)
+		run.errViol(side+"-body-read-error", "exchange %d (%s): reading the %s body failed after %d of %d bytes: %v", id, desc, side, obs.N, total, obs.Err)
 	}
 }
 
 func (run *v34Run) evaluate(st *v34RunStats, r *verifrt.R) {
 	cfg := run.cfg
+	if cf := st.Tap.CloseFrame; cf != "" {
+		run.connDead = true
+		code := "error"
+		if i := strings.Index(cf, "Code="); i >= 0 {
+			code = strings.Fields(cf[i+5:])[0]
+		}
+		key := "connection-closed-" + code
+		if st.Tap.CloseAfterReset {
+			key += "-after-stream-reset"
+		}
+		var sum []string
+		for _, ex := range cfg.Ex {
+			sum = append(sum, fmt.Sprintf("%d:%s req=%s/%d/%d resp=%s/%d/%d client-err=%v", ex.ID, ex.Method, ex.ReqKind, ex.ReqBody, ex.ReqDeclared, ex.RespKind, ex.RespBody, ex.RespDeclared, run.cli[ex.ID].RTErr))
+		}
+		run.viol(key, "the QUIC connection was closed with an error while exchanges were in flight: %s; exchanges: %s", cf, strings.Join(sum, " | "))
+		r.Event("connections_closed_with_error", 1)
+		defer func() { r.Event("exchange_failures_attributed_to_connection_close", int64(run.collateral)) }()
+	}
 	for _, ex := range cfg.Ex {
 		so, co := run.srv[ex.ID], run.cli[ex.ID]
 		desc := fmt.Sprintf("%s %s req=%s/%d/%d resp=%s/%d/%d status=%d", ex.Method, ex.RawPath, ex.ReqKind, ex.ReqBody, ex.ReqDeclared, ex.RespKind, ex.RespBody, ex.RespDeclared, ex.Status)
@@ -1227,7 +1311,7 @@ func (run *v34Run) evaluate(st *v34RunStats, r *verifrt.R) {
 		// ---- what the handler saw ----
 		if !invoked {
 			if !reqMismatch {
-				run.viol("handler-not-invoked", "exchange %d (%s): the handler never ran to completion (calls=%d); RoundTrip error: %v", ex.ID, desc, so.Calls.Load(), co.RTErr)
+				run.errViol("handler-not-invoked", "exchange %d (%s): the handler never ran to completion (calls=%d); RoundTrip error: %v", ex.ID, desc, so.Calls.Load(), co.RTErr)
 			} else {
 				r.Event("req_mismatch_handler_not_reached", 1)
 			}
@@ -1328,8 +1412,11 @@ func (run *v34Run) evaluate(st *v34RunStats, r *verifrt.R) {
 			} else {
 				r.Event("req_bodies_verified", 1)
 				r.Event("req_body_bytes_verified", so.Body.N)
-				// trailers
+				// trailers (only after a body that ended cleanly; a failed read was reported above)
 				for _, f := range ex.ReqTrailers {
+					if so.Body.Err != io.EOF {
+						break
+					}
 					if got := so.Trailer[f.Name]; !v34EqVals(got, f.Vals) {
 						run.viol("request-trailer-lost-or-changed", "exchange %d: trailer %q sent as %s, handler saw %s", ex.ID, f.Name, v34ShortVals(f.Vals), v34ShortVals(got))
 					}
@@ -1343,7 +1430,7 @@ func (run *v34Run) evaluate(st *v34RunStats, r *verifrt.R) {
 						run.viol("request-trailer-never-declared", "exchange %d: handler saw trailer %q = %s which was not declared/sent", ex.ID, k, v34ShortVals(v))
 					}
 				}
-				if len(ex.ReqTrailers) > 0 {
+				if len(ex.ReqTrailers) > 0 && so.Body.Err == io.EOF {
 					r.Event("req_trailer_sets_verified", 1)
 				}
 			}
@@ -1359,7 +1446,7 @@ func (run *v34Run) evaluate(st *v34RunStats, r *verifrt.R) {
 			continue
 		}
 		if co.RTErr != nil {
-			run.viol("roundtrip-error", "exchange %d (%s): RoundTrip failed: %v", ex.ID, desc, co.RTErr)
+			run.errViol("roundtrip-error", "exchange %d (%s): RoundTrip failed: %v", ex.ID, desc, co.RTErr)
 			continue
 		}
 		r.Event("client_observations_checked", 1)
@@ -1414,7 +1501,7 @@ func (run *v34Run) evaluate(st *v34RunStats, r *verifrt.R) {
 				run.viol("response-body-where-none-allowed", "exchange %d (%s): client read %d body bytes", ex.ID, desc, co.Body.N)
 			}
 			if co.Body.Err != io.EOF {
-				run.viol("response-body-read-error", "exchange %d (%s): reading the bodiless response failed: %v", ex.ID, desc, co.Body.Err)
+				run.errViol("response-body-read-error", "exchange %d (%s): reading the bodiless response failed: %v", ex.ID, desc, co.Body.Err)
 			}
 			r.Event("bodiless_responses_checked", 1)
 		case ex.RespKind == v34RespShort:
@@ -1463,7 +1550,7 @@ func (run *v34Run) evaluate(st *v34RunStats, r *verifrt.R) {
 					left -= wantN
 				}
 				if int64(wr.N) != wantN || (wr.Err == nil) != (wantN == int64(wr.Len)) {
-					run.viol("handler-write-result-wrong", "exchange %d (%s): Write #%d of %d bytes returned (%d,%v), want n=%d and an error iff n<len", ex.ID, desc, i, wr.Len, wr.N, wr.Err, wantN)
+					run.errViol("handler-write-result-wrong", "exchange %d (%s): Write #%d of %d bytes returned (%d,%v), want n=%d and an error iff n<len", ex.ID, desc, i, wr.Len, wr.N, wr.Err, wantN)
 					break
 				}
 			}
@@ -1530,7 +1617,7 @@ func TestVerif_C34(t *testing.T) {
 	r.Assume("fault decisions are a function of (seed, direction, datagram sequence number); goroutine scheduling inside the bubble is not replayed bit-exactly")
 	r.Assume("net/url, net/http.Header and http.DetectContentType (standard library) are trusted; the harness never decodes HTTP/3 or QPACK bytes")
 	r.Assume("a handler that writes more than its declared Content-Length is accepted in the documented net/http way: Write reports an error and exactly the declared bytes travel (or the client read fails)")
-	n := r.N(70, 1600)
+	n := r.N(70, 400)
 	maxEx, maxBody, maxHeaders := 4, int64(160<<10), 20
 	if r.Thorough() {
 		maxEx, maxBody, maxHeaders = 6, 1<<20, 30
@@ -1542,7 +1629,7 @@ func TestVerif_C34(t *testing.T) {
 			sum = append(sum, ex.summary())
 		}
 		c.Describe(map[string]any{"faults": cfg.Faults, "fault_phase_ms": cfg.FaultPhaseMs, "cli_buf": cfg.CliBuf, "srv_buf": cfg.SrvBuf, "disable_compression": cfg.DisableCompression,
-			"key_update_loss_ms": cfg.KeyUpdateLossMs, "key_update_after_packet": cfg.KeyUpdateAfter, "exchanges": sum})
+			"key_update_loss_ms": cfg.KeyUpdateLossMs, "key_update_after_packet": cfg.KeyUpdateAfter, "reset_ack_loss_ms": cfg.ResetAckLossMs, "exchanges": sum})
 		run := &v34Run{cfg: cfg, c: c}
 		for range cfg.Ex {
 			run.srv = append(run.srv, &v34SrvObs{})
@@ -1561,7 +1648,11 @@ func TestVerif_C34(t *testing.T) {
 		}
 		run.evaluate(st, r)
 		nn, tp := st.Net, st.Tap
-		faulted := nn.Dropped[0]+nn.Dropped[1]+nn.Duped[0]+nn.Duped[1]+nn.Reordered[0]+nn.Reordered[1]+nn.Filtered[0] > 0
+		if v34Debug && run.nviol > 0 {
+			os.MkdirAll("/tmp/C34", 0o755)
+			os.WriteFile(fmt.Sprintf("/tmp/C34/viol-%s-%d.log", c.Stream, c.Index), []byte(strings.Join(tp.lines, "\n")), 0o644)
+		}
+		faulted := nn.Dropped[0]+nn.Dropped[1]+nn.Duped[0]+nn.Duped[1]+nn.Reordered[0]+nn.Reordered[1]+nn.Filtered[0]+nn.Filtered[1] > 0
 		for _, ex := range cfg.Ex {
 			nt := faulted && (ex.ReqBody > 0 || ex.RespBody > 0) && run.cli[ex.ID].Done.Load()
 			r.Eval(nt, ex.Method, ex.ReqKind, ex.ReqBody, ex.ReqChunkMax, len(ex.ReqHeaders), ex.RespKind, ex.RespBody, ex.RespChunkMax, ex.RespFlushPct, len(ex.RespHeaders), ex.Status, nn.Dropped, nn.Duped, nn.Reordered, nn.Filtered)
@@ -1581,6 +1672,9 @@ func TestVerif_C34(t *testing.T) {
 				r.Event("key_update_under_scripted_loss_runs", 1)
 			}
 		}
+		if cfg.ResetAckLossMs > 0 && nn.Filtered[1] > 0 {
+			r.Event("reset_ack_lost_scripted_runs", 1)
+		}
 		r.Event("datagrams", nn.Sent[0]+nn.Sent[1])
 		r.Event("datagrams_dropped", nn.Dropped[0]+nn.Dropped[1]+nn.Filtered[0])
 		r.Event("datagrams_duplicated", nn.Duped[0]+nn.Duped[1])
@@ -1597,7 +1691,7 @@ func TestVerif_C34(t *testing.T) {
 	// 101 on, for a PRNG-chosen window, every client datagram carrying an ack-eliciting packet
 	// is lost while pure acknowledgements get through; afterwards the network is perfect and
 	// the exchange has to complete like any other.
-	nk := r.N(4, 40)
+	nk := r.N(4, 16)
 	r.CasesParallel("key-update-under-loss", nk, 4, func(c *verifrt.Case) {
 		rng := c.Rng
 		cfg := &v34Config{Faults: vhnFaults{BaseDelayMs: 5 + rng.IntN(30)}, FaultPhaseMs: 30000, CleanBoundS: 120, NetSeed: rng.Uint64(),
@@ -1617,10 +1711,32 @@ func TestVerif_C34(t *testing.T) {
 		runCase(c, cfg)
 	})
 
+	// Scripted loss of the acknowledgement of a RESET_STREAM: one exchange whose request body
+	// ends before its declared Content-Length (the transport resets the request stream)
+	// while the handler reads it in small pieces, next to an innocent exchange with a long
+	// response; the server's datagrams are lost for a while right after the reset was sent,
+	// so the client retransmits RESET_STREAM. The innocent exchange has to complete.
+	nr := r.N(4, 16)
+	r.CasesParallel("reset-retransmitted", nr, 4, func(c *verifrt.Case) {
+		rng := c.Rng
+		cfg := &v34Config{Faults: vhnFaults{BaseDelayMs: 5 + rng.IntN(30)}, FaultPhaseMs: 30000, CleanBoundS: 120, NetSeed: rng.Uint64(), ResetAckLossMs: 500 + rng.IntN(2000)}
+		victim := v34GenExchange(rng, 0, 1000, 6)
+		victim.Method, victim.Status, victim.EarlyHints = "GET", 200, false
+		victim.ReqKind, victim.ReqBody, victim.ReqDeclared, victim.ReqTrailers, victim.ReqTrailerUndeclared = v34ReqNone, 0, 0, nil, false
+		victim.RespKind, victim.RespBody, victim.RespDeclared, victim.RespChunkMax, victim.RespReadMax, victim.RespFlushPct = v34RespUndeclared, 150000+rng.Int64N(200000), -1, 4096, 4096, 10
+		short := v34GenExchange(rng, 1, 1000, 6)
+		short.Method, short.Duplex = "POST", false
+		short.ReqKind, short.ReqBody, short.ReqChunkMax, short.ReqReadMax = v34ReqShort, 2000+rng.Int64N(6000), 1200, []int{1, 13}[rng.IntN(2)]
+		short.ReqDeclared = short.ReqBody + 1 + rng.Int64N(500)
+		short.ReqEOFWithData, short.ReqEOFDelayMs = false, 300+rng.IntN(500) // everything produced so far reaches the handler before the reset
+		cfg.Ex = []*v34Exchange{victim, short}
+		runCase(c, cfg)
+	})
+
 	r.CasesParallel("exchange", n, 8, func(c *verifrt.Case) {
 		runCase(c, v34GenConfig(c.Rng, maxEx, maxBody, maxHeaders))
 	})
-	n += nk
+	n += nk + nr
 	r.Require("runs_completed", int64(n*8/10))
 	r.Require("handler_observations_checked", int64(n))
 	r.Require("client_observations_checked", int64(n))
@@ -1631,4 +1747,5 @@ func TestVerif_C34(t *testing.T) {
 	r.Require("req_trailer_sets_verified", 3)
 	r.Require("late_header_mutations_checked", 10)
 	r.Require("key_update_under_scripted_loss_runs", int64(nk/2))
+	r.Require("reset_ack_lost_scripted_runs", int64(nr/2))
 }
